@@ -1,7 +1,10 @@
 import TongoProofs.Lemmas.TlbPrims
 import TongoProofs.Lemmas.TlbStack
 import TongoProofs.Lemmas.TlbCanon
+import TongoProofs.Lemmas.TlbChain
+import TongoProofs.Lemmas.TlbOpBody
 import TongoGen.TlbTypes
+import TongoGen.AbiOpcodes
 import TongoGen.IntTypes
 /-! # C03 — TL-B values survive encode/decode for every type the library ships
 
@@ -385,6 +388,133 @@ example :
     let m (k : Nat) : Val := Val.list [Val.some (.cell (.mk 0 0 (natToBits 9 k) [])), .int (k : Int)]
     inDom (fun _ => none) 8 .highload (Val.list [m 3, m 130, m 255]) = true := by
   decide
+
+/-- **CodecOK_w5ExtendedActions** — the third mode next to greedy / non-greedy: `wallet.W5ExtendedActions` (`chain e`)
+writes an element and, unless it was the last, one reference to the cell with the remaining elements; the decoder reads
+an element and FOLLOWS THE NEXT REFERENCE WHENEVER THERE IS ONE. For a well-formed non-greedy element type and every
+in-domain list: whatever has been written before, decoding the appended chunk returns the list and leaves exactly what
+follows — provided NO REFERENCE follows (bits may: the signature of wallet v5). -/
+theorem CodecOK_w5ExtendedActions (env : Env) (hEnv : EnvWF env) (e : Ty) (hw : wfb env e = true)
+    (hng : greedyb env greedyFuel e = false) (fuel : Nat) (v : Val) (hd : inDom env fuel (.chain e) v = true)
+    (b b' : Builder) (he : encode env fuel (.chain e) v b = .ok b') :
+    ∃ xs rs, b' = b.app xs rs ∧
+      ∀ s : Slice, s.isLibrary = false → s.refs = [] → decode env fuel (.chain e) (s.prepend xs rs) = .ok (v, s) :=
+  chain_rt hEnv e hw ⟨greedyFuel, hng⟩ fuel v b b' hd he
+
+/-- **roundtrip_wallet_MessageV5** (wallet v5r1 signed / extension bodies): the struct with the reference chain
+followed by bits-only fields (the signature), as payload of the top-level sum — `chainTopb` decides the shape on the
+REGENERATED descriptor (`wfc_wallet_MessageV5`); the theorem is `Lemmas/TlbChain.chainTop_roundtrip`. -/
+theorem roundtrip_wallet_MessageV5 (fuel : Nat) (v : Val)
+    (hd : inDom TongoGen.TlbTypes.env fuel TongoGen.TlbTypes.desc_wallet_MessageV5 v = true) (b' : Builder)
+    (he : encode TongoGen.TlbTypes.env fuel TongoGen.TlbTypes.desc_wallet_MessageV5 v Builder.empty = .ok b') :
+    ∃ rest, decode TongoGen.TlbTypes.env fuel TongoGen.TlbTypes.desc_wallet_MessageV5 (Slice.ofCell b'.toCell)
+      = .ok (v, rest) :=
+  chainTop_roundtrip generated_env_wf _ TongoGen.TlbTypes.wfc_wallet_MessageV5 fuel v hd b' he
+
+theorem roundtrip_wallet_W5ExtendedActions (fuel : Nat) (v : Val)
+    (hd : inDom TongoGen.TlbTypes.env fuel TongoGen.TlbTypes.desc_wallet_W5ExtendedActions v = true) (b' : Builder)
+    (he : encode TongoGen.TlbTypes.env fuel TongoGen.TlbTypes.desc_wallet_W5ExtendedActions v Builder.empty = .ok b') :
+    ∃ rest, decode TongoGen.TlbTypes.env fuel TongoGen.TlbTypes.desc_wallet_W5ExtendedActions
+      (Slice.ofCell b'.toCell) = .ok (v, rest) :=
+  chain_roundtrip generated_env_wf _ TongoGen.TlbTypes.wfc_wallet_W5ExtendedActions fuel v hd b' he
+
+set_option maxRecDepth 100000 in
+/-- the domain is inhabited (TEST on a literal): a signed external v5r1 body with two extended actions -/
+example :
+    let act (a : Bool) : Val := Val.ctor "SetSignatureAllowed" (Val.some (Val.list [.bool a]))
+    let v := Val.ctor "SignedExternal" (Val.some (Val.list [.int 1, .int 2, .int 3, .none,
+      Val.some (Val.list [act true, act false]), .bytes (List.replicate 64 7)]))
+    inDom TongoGen.TlbTypes.env 24 TongoGen.TlbTypes.desc_wallet_MessageV5 v = true ∧
+    (encode TongoGen.TlbTypes.env 24 TongoGen.TlbTypes.desc_wallet_MessageV5 v Builder.empty).isOk = true := by
+  decide
+
+/-! ## ABI message bodies: opcode dispatch (abi.InMsgBody / ExtInMessageDecoder / abi.ExtOutMsgBody; the payload unions
+abi.JettonPayload / abi.NFTPayload). Model: `TongoModel/Tlb/OpBody.lean`; the tables are regenerated from the Go source
+(translator AbiOpcodes → `TongoGen/AbiOpcodes.lean`). -/
+
+/-- **CodecOK_inMsgBody** — for ANY dispatch table and every opcode that has exactly one registered layout, a
+well-formed one (`opEntryOk`, decidable): `InMsgBody.MarshalTLB` of (op name, opcode, in-domain value) into a new cell
+either fails or yields a cell from which `InMsgBody.UnmarshalTLB` (`extOut = false`; `true`: ExtOutMsgBody) selects the
+SAME layout — the same op name, the same opcode — and returns the same value. -/
+theorem CodecOK_inMsgBody (env : Env) (hEnv : EnvWF env) (cs : Ctors) (op : Nat) (hok : opEntryOk env cs op = true)
+    (n : String) (t : Ty) (hby : cs.byOp op = [(n, t)]) (fuel : Nat) (x : Val) (hd : inDom env fuel t x = true)
+    (extOut : Bool) (b' : Builder)
+    (he : encodeOpBody env fuel cs (opVal (strBytes n) (some op) x) Builder.empty = .ok b') :
+    ∃ rest, decodeOpBody env fuel extOut cs (Slice.ofCell b'.toCell) = .ok (opVal (strBytes n) (some op) x, rest) :=
+  opBody_roundtrip (Inv.all env hEnv primOK_of_proved fuel) cs op hok n t hby x hd extOut b' he
+
+/-- the same for the payload unions (JettonPayload / NFTPayload): the first layout registered for the opcode; a
+fixed-length layout must in addition not be greedy (`payloadEntryOk`) -/
+theorem CodecOK_payload (env : Env) (hEnv : EnvWF env) (cs : Ctors) (op : Nat) (hok : payloadEntryOk env cs op = true)
+    (n : String) (t : Ty) (c : Bool) (hby : cs.firstOp op = some (n, t, c)) (fuel : Nat) (x : Val)
+    (hd : inDom env fuel t x = true) (b' : Builder)
+    (he : encodePayload env fuel cs (opVal (strBytes n) (some op) x) Builder.empty = .ok b') :
+    ∃ rest, decodePayload env fuel cs (Slice.ofCell b'.toCell) = .ok (opVal (strBytes n) (some op) x, rest) :=
+  payload_roundtrip (Inv.all env hEnv primOK_of_proved fuel) cs op hok n t c hby x hd b' he
+
+open TongoGen.AbiOpcodes in
+/-- **roundtrip_abi_InMsgBody**: `CodecOK_inMsgBody` instantiated over the REGENERATED table of internal message
+bodies, for every opcode of `inGood` (one layout, `wf_` discharged: `inGood_ok` is decided on the regenerated table;
+a second layout registered under an opcode, or a layout change that breaks well-formedness, fails it) -/
+theorem roundtrip_abi_InMsgBody (op : Nat) (hop : op ∈ inGood) (n : String) (t : Ty)
+    (hby : inTable.byOp op = [(n, t)]) (fuel : Nat) (x : Val) (hd : inDom TongoGen.TlbTypes.env fuel t x = true)
+    (b' : Builder)
+    (he : encodeOpBody TongoGen.TlbTypes.env fuel inTable (opVal (strBytes n) (some op) x) Builder.empty = .ok b') :
+    ∃ rest, decodeOpBody TongoGen.TlbTypes.env fuel false inTable (Slice.ofCell b'.toCell)
+      = .ok (opVal (strBytes n) (some op) x, rest) :=
+  CodecOK_inMsgBody _ generated_env_wf inTable op (List.all_eq_true.mp inGood_ok op hop) n t hby fuel x hd false b' he
+
+open TongoGen.AbiOpcodes in
+/-- external-in bodies (abi.ExtInMessageDecoder; Go has no encoder of its own: the body is written as an InMsgBody) -/
+theorem roundtrip_abi_ExtInMsgBody (op : Nat) (hop : op ∈ extInGood) (n : String) (t : Ty)
+    (hby : extInTable.byOp op = [(n, t)]) (fuel : Nat) (x : Val) (hd : inDom TongoGen.TlbTypes.env fuel t x = true)
+    (b' : Builder)
+    (he : encodeOpBody TongoGen.TlbTypes.env fuel extInTable (opVal (strBytes n) (some op) x) Builder.empty = .ok b') :
+    ∃ rest, decodeOpBody TongoGen.TlbTypes.env fuel false extInTable (Slice.ofCell b'.toCell)
+      = .ok (opVal (strBytes n) (some op) x, rest) :=
+  CodecOK_inMsgBody _ generated_env_wf extInTable op (List.all_eq_true.mp extInGood_ok op hop) n t hby fuel x hd false
+    b' he
+
+open TongoGen.AbiOpcodes in
+/-- external-out bodies (abi.ExtOutMsgBody.UnmarshalTLB) -/
+theorem roundtrip_abi_ExtOutMsgBody (op : Nat) (hop : op ∈ extOutGood) (n : String) (t : Ty)
+    (hby : extOutTable.byOp op = [(n, t)]) (fuel : Nat) (x : Val) (hd : inDom TongoGen.TlbTypes.env fuel t x = true)
+    (b' : Builder)
+    (he : encodeOpBody TongoGen.TlbTypes.env fuel extOutTable (opVal (strBytes n) (some op) x) Builder.empty = .ok b') :
+    ∃ rest, decodeOpBody TongoGen.TlbTypes.env fuel true extOutTable (Slice.ofCell b'.toCell)
+      = .ok (opVal (strBytes n) (some op) x, rest) :=
+  CodecOK_inMsgBody _ generated_env_wf extOutTable op (List.all_eq_true.mp extOutGood_ok op hop) n t hby fuel x hd true
+    b' he
+
+open TongoGen.AbiOpcodes in
+/-- abi.JettonPayload over the regenerated table -/
+theorem roundtrip_abi_JettonPayload (op : Nat) (hop : op ∈ jettonGood) (n : String) (t : Ty) (c : Bool)
+    (hby : jettonTable.firstOp op = some (n, t, c)) (fuel : Nat) (x : Val)
+    (hd : inDom TongoGen.TlbTypes.env fuel t x = true) (b' : Builder)
+    (he : encodePayload TongoGen.TlbTypes.env fuel jettonTable (opVal (strBytes n) (some op) x) Builder.empty = .ok b') :
+    ∃ rest, decodePayload TongoGen.TlbTypes.env fuel jettonTable (Slice.ofCell b'.toCell)
+      = .ok (opVal (strBytes n) (some op) x, rest) :=
+  CodecOK_payload _ generated_env_wf jettonTable op (List.all_eq_true.mp jettonGood_ok op hop) n t c hby fuel x hd b' he
+
+open TongoGen.AbiOpcodes in
+/-- abi.NFTPayload over the regenerated table -/
+theorem roundtrip_abi_NFTPayload (op : Nat) (hop : op ∈ nftGood) (n : String) (t : Ty) (c : Bool)
+    (hby : nftTable.firstOp op = some (n, t, c)) (fuel : Nat) (x : Val)
+    (hd : inDom TongoGen.TlbTypes.env fuel t x = true) (b' : Builder)
+    (he : encodePayload TongoGen.TlbTypes.env fuel nftTable (opVal (strBytes n) (some op) x) Builder.empty = .ok b') :
+    ∃ rest, decodePayload TongoGen.TlbTypes.env fuel nftTable (Slice.ofCell b'.toCell)
+      = .ok (opVal (strBytes n) (some op) x, rest) :=
+  CodecOK_payload _ generated_env_wf nftTable op (List.all_eq_true.mp nftGood_ok op hop) n t c hby fuel x hd b' he
+
+set_option maxRecDepth 100000 in
+/-- what the regenerated lists say (TESTS on literals): the jetton notification opcode is registered once; the jetton
+transfer body (it holds a JettonPayload: custom codec, no `wf_`) is outside `inGood`; opcode 0xf06c7567 has two layouts
+(both empty structs: the recorded collision) and is outside `inGood`; `Excess` is inside -/
+example :
+    (TongoGen.AbiOpcodes.inTable.byOp 0x7362d09c).length = 1 ∧ 0x0f8a7ea5 ∉ TongoGen.AbiOpcodes.inGood ∧
+    (TongoGen.AbiOpcodes.inTable.byOp 0xf06c7567).map (·.1) = ["PaymentRequestResponse", "SubscriptionV2PaymentConfirmed"] ∧
+    0xf06c7567 ∉ TongoGen.AbiOpcodes.inGood ∧ 0xd53276db ∈ TongoGen.AbiOpcodes.inGood := by
+  decide +kernel
 
 /-- the key descriptors a dictionary admits: exactly those with a fixed width -/
 theorem hashmap_key_widths :
